@@ -115,6 +115,7 @@ type record = {
   mutable parse : string list;
   mutable proj : (string * string) list;
   mutable wtext : int list option;
+  mutable import : string; mutable importerr : string; mutable floatconv : bool; mutable c10doc : string list option;
 }
 
 let mismatches = ref 0
@@ -142,8 +143,118 @@ let first_diff (a : int list) (b : int list) : int =
 let rec drop n l = if n <= 0 then l else match l with [] -> [] | _ :: t -> drop (n - 1) t
 let rec take n l = if n <= 0 then [] else match l with [] -> [] | x :: t -> x :: take (n - 1) t
 
+
+(* ---- the importer's outcome class against the extracted model of the importer (coq/C10/Import.v) ---- *)
+module M10 = C10_model
+let rec pos10 (x : BZ.t) : M10.positive =
+  if BZ.equal x BZ.one then M10.XH
+  else if BZ.testbit x 0 then M10.XI (pos10 (BZ.shift_right x 1)) else M10.XO (pos10 (BZ.shift_right x 1))
+let z10 (s : string) : M10.z =
+  let x = BZ.of_string s in
+  if BZ.sign x = 0 then M10.Z0 else if BZ.sign x > 0 then M10.Zpos (pos10 x) else M10.Zneg (pos10 (BZ.neg x))
+let hexv c = match c with
+  | '0'..'9' -> Char.code c - 48 | 'a'..'f' -> Char.code c - 87 | 'A'..'F' -> Char.code c - 55 | _ -> failwith "bad hex"
+let chars_of_hex (h : string) : char list =
+  List.init (String.length h / 2) (fun i -> Char.chr (hexv h.[2*i] * 16 + hexv h.[2*i+1]))
+let rec parse_tree (ts : string list) : M10.tok * string list =
+  match ts with
+  | [] -> failwith "tree: unexpected end"
+  | "(" :: r ->
+    let rec items acc r = match r with
+      | ")" :: r' -> (M10.TL (List.rev acc), r')
+      | _ -> let (t, r') = parse_tree r in items (t :: acc) r' in
+    items [] r
+  | t :: r ->
+    let body = String.sub t 1 (String.length t - 1) in
+    (match t.[0] with
+     | 'i' -> (M10.TI (z10 body), r)
+     | 's' -> (M10.TS (chars_of_hex body), r)
+     | 'f' -> (match String.split_on_char ':' body with
+         | [m; e] -> (M10.TF { M10.fm = z10 m; M10.fe = z10 e }, r)
+         | _ -> failwith "tree: bad float")
+     | _ -> failwith ("tree: bad token " ^ t))
+let string_of_chars (l : char list) = String.init (List.length l) (List.nth l)
+
+
+(* the model's reason for a refusal -> the innermost cause the importer's error chain must end with *)
+let kind_table : (string * string list) list = [
+  "attribute default is required", ["\"attribute default\" is required"];
+  "attribute value does not conform", ["invalid type"; "not found"; "out of bounds"];
+  "default greater than max", ["is greater then \"max\""];
+  "default lower than min", ["is lower then \"min\""];
+  "enum attribute without values", ["is nil"];
+  "enum value index duplicated", ["is duplicated"];
+  "enum value index out of bounds", ["is negative"; "out of bounds"];
+  "enum value name duplicated", ["is duplicated"];
+  "extended multiplexing is required", ["\"extended multiplexing\" is required"];
+  "group id out of bounds", ["out of bounds"];
+  "group size not positive", ["is negative"; "is zero"];
+  "group count not positive", ["is negative"; "is zero"];
+  "inverted range", ["out of bounds"];
+  "message name duplicated", ["is duplicated"];
+  "message size too big", ["too big"];
+  "min greater than max", ["is greater then \"max\""];
+  "multiplexed signal ends beyond the message", ["not enough space left"];
+  "multiplexor not found", ["not found"];
+  "multiplexor not placed before its multiplexer", ["out of bounds"];
+  "multiplexor switch is required", ["\"multiplexor switch\" is required"];
+  "multiplexor switch of size zero", ["is zero"];
+  "nested signal name duplicated", ["is duplicated"];
+  "signal name duplicated", ["is duplicated"];
+  "node name duplicated", ["is duplicated"];
+  "node id duplicated", ["is duplicated"];
+  "no space left", ["not enough space left"];
+  "receiver node not found", ["not found"];
+  "transmitter node not found", ["not found"];
+  "signal size out of bounds", ["out of bounds"];
+  "signal size is zero", ["is zero"];
+  "start bit intersects", ["is intersecting"];
+  "start bit negative", ["is negative"];
+  "static CAN-ID duplicated", ["is duplicated"];
+  "value description does not fit in the signal", ["too small"];
+  "well-known attribute value of the wrong type", ["invalid type"];
+  "byte order differs within the message", ["byte_order: should be the same for all the signals within the message"];
+]
+let ends_with (s : string) (suf : string) : bool =
+  let n = String.length s and m = String.length suf in n >= m && String.sub s (n - m) m = suf
+let imp_kind_ok = ref 0
+let imp_unmapped = ref 0
+let imp_kind_outside = ref 0
+let imp_compared = ref 0
+let imp_ok = ref 0
+let imp_err = ref 0
+let imp_reasons : (string, int) Hashtbl.t = Hashtbl.create 32
+
+let compare_import (r : record) report =
+  match r.c10doc with
+  | None -> ()
+  | Some toks ->
+    incr imp_compared;
+    let (doc, _) = parse_tree toks in
+    (match M10.run_import (M10.TL [doc; M10.TL []]) with
+     | M10.TL (M10.TS tag :: restt) ->
+       let tag = string_of_chars tag in
+       let why = match restt with M10.TS w :: _ -> string_of_chars w | _ -> "" in
+       if tag = "ok" && r.import = "ok" then incr imp_ok
+       else if tag = "err" && r.import = "other" then begin
+         incr imp_err;
+         Hashtbl.replace imp_reasons why (1 + (try Hashtbl.find imp_reasons why with Not_found -> 0));
+         (match List.assoc_opt why kind_table with
+          | None -> incr imp_unmapped
+          | Some tails ->
+            if List.exists (ends_with r.importerr) tails then incr imp_kind_ok
+            else if r.floatconv then incr imp_kind_outside
+              (* a float literal beyond 2^53 converted with int(float64): implementation-dependent in Go, exact in the model *)
+            else report r "import-error-kind"
+                (Printf.sprintf "the model of the importer refuses with [%s], ImportDBCFile with [%s]" why r.importerr))
+       end else
+         report r "import-class" (Printf.sprintf "ImportDBCFile: %s, model of the importer: %s %s"
+                                    (if r.import = "ok" then "accepts" else "refuses") (if tag = "ok" then "accepts" else "refuses:") why)
+     | _ -> report r "import-class" "the model of the importer returned no outcome")
+
 let process (r : record) =
   incr cases;
+  compare_import r mismatch;
   if r.domain then begin
     incr compared;
     let text = str_of_cps r.text in
@@ -223,7 +334,7 @@ let endskel : (int * int) option ref = ref None
 let process_skel (toks : string list) =
   incr skel_cases;
   let dummy = { id = "skel" ^ string_of_int !skel_cases; stream = "skeleton"; hex = false; text = []; domain = false; digits = [];
-                toks = []; prs = []; fmt = []; parse = []; proj = []; wtext = None } in
+                toks = []; prs = []; fmt = []; parse = []; proj = []; wtext = None; import = ""; importerr = ""; floatconv = false; c10doc = None } in
   match toks with
   | gc :: n :: rest ->
     let n = int_of_string n in
@@ -244,7 +355,7 @@ let process_skel (toks : string list) =
 (* ---- static tables ---- *)
 let check_tables (kws : (int * int list) list) (puncts : (int * int) list) (newsyms : int list list) (access : (int * int list) list) =
   let dummy = { id = "tables"; stream = "tables"; hex = false; text = []; domain = false; digits = []; toks = []; prs = []; fmt = [];
-                parse = []; proj = []; wtext = None } in
+                parse = []; proj = []; wtext = None; import = ""; importerr = ""; floatconv = false; c10doc = None } in
   let m_kws = List.sort compare (List.map (fun (s, k) -> (int_of_n (keyword_index k), cps_of_str s)) keyword_table) in
   if List.sort compare kws <> m_kws then mismatch dummy "table-keywords" "keyword table differs";
   let m_p = List.mapi (fun i c -> (i, int_of_n c)) punct_chars in
@@ -278,7 +389,7 @@ let () =
         (match rest () with
          | [id; stream; hex] ->
            cur := Some { id; stream; hex = (hex = "1"); text = []; domain = false; digits = []; toks = []; prs = []; fmt = [];
-                         parse = []; proj = []; wtext = None }
+                         parse = []; proj = []; wtext = None; import = ""; importerr = ""; floatconv = false; c10doc = None }
          | _ -> failwith "bad CASE")
       | "TEXT", Some r -> r.text <- fst (take_cps (rest ()))
       | "DOMAIN", Some r -> r.domain <- (rest () = ["1"])
@@ -298,6 +409,10 @@ let () =
       | "PARSE", Some r -> r.parse <- rest ()
       | "WTEXT", Some r -> r.wtext <- Some (fst (take_cps (rest ())))
       | "WPANIC", Some _ -> ()
+      | "IMPORT", Some r -> (match rest () with [c] -> r.import <- c | _ -> ())
+      | "IMPORTERR", Some r -> r.importerr <- String.trim (String.sub line sp (String.length line - sp))
+      | "C10FLOATCONV", Some r -> r.floatconv <- true
+      | "C10DOC", Some r -> r.c10doc <- Some (rest ())
       | "END", Some r -> process r; cur := None
       | _, Some r when String.length tag > 2 && String.sub tag 0 2 = "P." ->
         let s = String.sub tag 2 (String.length tag - 2) in
@@ -313,4 +428,6 @@ let () =
   (match !endskel with
    | None -> Printf.printf "SKELMARK missing\n"
    | Some (n, seen) -> Printf.printf "SKELMARK %s %d %d\n" (if n = seen && n = !skel_cases then "ok" else "mismatch") n !skel_cases);
+  Printf.printf "IMPORTCMP %d OK %d ERR %d KINDOK %d UNMAPPED %d KINDOUTSIDE %d\n" !imp_compared !imp_ok !imp_err !imp_kind_ok !imp_unmapped !imp_kind_outside;
+  Hashtbl.iter (fun w n -> Printf.printf "IMPORTERR %d %s\n" n w) imp_reasons;
   Printf.printf "CASES %d COMPARED %d MISMATCHES %d\n" !cases !compared !mismatches
